@@ -122,7 +122,7 @@ func (o *OracleC09) BeforeCall(n *Node, st *Step) {
 	}
 	// ... which, if it is already in the message's view, holds nothing of it and is not leaving it
 	// (if it is in a lower view, the change-view requests inside the message may bring it up)
-	if p.V == d.ViewNumber && (d.RequestSentOrReceived() || d.ViewChanging() || d.IsPrimary()) {
+	if p.V == d.ViewNumber && (d.RequestSentOrReceived() || d.ViewChanging()) {
 		return
 	}
 	// the proposal inside: the authentic one of that view's primary, which is an honest node
@@ -131,9 +131,11 @@ func (o *OracleC09) BeforeCall(n *Node, st *Step) {
 	if e.T != dbft.PrepareRequestType || e.H != p.H || e.V != p.V || uint(e.Idx) != prim || !witnessOK(e, d.Validators) {
 		return
 	}
+	// (... or the receiver itself: a primary that lost its state takes its own earlier proposal
+	// back, instead of proposing a second time for the same view)
 	honest := false
 	for _, m := range s.nodes {
-		if m.kind == FHonest && s.sc.IndexAt(p.H, m.ident) == int(prim) {
+		if (m.kind == FHonest || m == n) && s.sc.IndexAt(p.H, m.ident) == int(prim) {
 			honest = true
 		}
 	}
@@ -151,7 +153,7 @@ func (o *OracleC09) BeforeCall(n *Node, st *Step) {
 func (o *OracleC09) AfterCall(n *Node, st *Step) {
 	if e := o.recPre; e != nil {
 		o.recPre = nil
-		if d := n.d; d != nil && st.Panic == nil && st.PostBI == st.PreBI && st.PostV == e.V && !n.accepted && !d.BlockSent() && !d.IsPrimary() && !d.ViewChanging() && (st.PreV == e.V || (!d.CommitSent() && !d.PreCommitSent())) {
+		if d := n.d; d != nil && st.Panic == nil && st.PostBI == st.PreBI && st.PostV == e.V && !n.accepted && !d.BlockSent() && !d.ViewChanging() && (st.PreV == e.V || (!d.CommitSent() && !d.PreCommitSent())) {
 			// (when the view changes inside the call, an own earlier vote that a restarted validator had in its
 			// cache is replayed first and locks it: that state is legal, observation O7)
 			if !d.RequestSentOrReceived() {
